@@ -764,6 +764,8 @@ def main(argv):
         c.broken.append("extraction/driver build failed: " + dlog[-600:])
     else:
         phase_model(c, drv, hx, model_cases, kernel_cases, child_cases, strace_cases, shard_cases)
+    if c.tier == "thorough":
+        coqchk(c)
     shutil.rmtree(SCRATCH, ignore_errors=True)
     if os.environ.get("VERIF_DEBUG"):
         for what, obj, found in c.violations:
